@@ -504,6 +504,14 @@ def has_nonfinite(obj):
     return False
 
 
+def safe_key(prop, case, res, why):
+    """finding key, never raising (an unclassifiable violation is simply not a known one)"""
+    try:
+        return str(prop.finding_key(case, res, why))
+    except Exception:
+        return "unclassified"
+
+
 def safe_oracle(prop, case, res):
     """oracle verdict, never raising: an oracle that cannot evaluate a result is not a verdict"""
     try:
@@ -599,7 +607,7 @@ def run_check(prop: Prop, tier: str, seed: int, replay: str | None = None):
 
     # 6. decision
     for i, why in oracle_bad:
-        key = prop.finding_key(cases[i], results[i], why)
+        key = safe_key(prop, cases[i], results[i], why)
         if key in open_keys:
             known_hits.setdefault(key, (i, why))
             continue
@@ -609,9 +617,12 @@ def run_check(prop: Prop, tier: str, seed: int, replay: str | None = None):
             if e:
                 return False
             w = safe_oracle(_prop, c, r)
-            return bool(w) and _prop.finding_key(c, r, w) == _key
+            return bool(w) and safe_key(_prop, c, r, w) == _key
 
-        small = prop.shrink(cases[i], still_fails)
+        try:
+            small = prop.shrink(cases[i], still_fails)
+        except Exception:
+            small = cases[i]
         r2, _ = safe_impl(prop, small)
         path = write_replay(pid, "counterexample", {
             "property": pid, "kind": "counterexample", "case": small,
@@ -653,13 +664,13 @@ def run_check(prop: Prop, tier: str, seed: int, replay: str | None = None):
             r, e = safe_impl(prop, c)
             if not e:
                 w = safe_oracle(prop, c, r)
-                if w and prop.finding_key(c, r, w) not in open_keys:
+                if w and safe_key(prop, c, r, w) not in open_keys:
                     found = (c, r, w, 0)
                     break
         if not found:
             c, r, w, n = prop.search(random.Random(seed + 1), seeds, budget)
             search_info = {"cases_searched": n}
-            if c is not None and prop.finding_key(c, r, w) not in open_keys:
+            if c is not None and safe_key(prop, c, r, w) not in open_keys:
                 found = (c, r, w, n)
         kind, detail = broken[0]
         if found:
